@@ -21,7 +21,8 @@ RULE = ("pairs/triples of Table/Schema/Database/AliasedQuery construction progra
         "exactly one of name, a schema level, a schema class, alias, for_ / for_portion criterion, query body changed); "
         "intermediate objects are observed (hash, ==, str, set membership) at random construction steps before "
         "as_/for_/for_portion/attribute access, and every object is compared with a twin built without that history; "
-        "plus independent and cross-class objects and a malformed stream (empty schema tuple/list, second temporal "
+        "plus independent and cross-class objects, sometimes a sub-query or set operation (not a subject: only its "
+        "comparisons with the subjects and the subjects' membership in containers holding it are observed) and a malformed stream (empty schema tuple/list, second temporal "
         "clause); a case is non-trivial when two distinct objects of it compare equal or differ in exactly one "
         "attribute; distinct by the JSON of the programs")
 TRUSTED = [
@@ -66,7 +67,16 @@ def _body_pool():
             Query.from_("t").select("a").where(Field("a") == 1)]
 
 
-N_FOR, N_PORTION, N_BODY = 6, 3, 3
+def _other_pool():
+    """selectables that are NOT subjects of the property (sub-queries, set operations) but share the FROM / JOIN
+    lists with tables: only their relation to the subjects is observed (see design.d/C16.md)"""
+    from pypika import Query
+    q = Query.from_("a").select("*")
+    u = Query.from_("t").select("x").union(Query.from_("u").select("x"))
+    return [q, q.as_("t"), u, u.as_("t"), Query.from_("t").select("x").as_("u")]
+
+
+N_FOR, N_PORTION, N_BODY, N_OTHER = 6, 3, 3, 5
 
 
 def for_text(i):
@@ -130,6 +140,8 @@ def build_obj(p):
     k = p["k"]
     if k == "S":
         return build_sprog(p["prog"])
+    if k == "O":
+        return _other_pool()[p["idx"]]
     if k == "A":
         return AliasedQuery(p["name"]) if p["body"] is None else AliasedQuery(p["name"], _body_pool()[p["body"]])
     r = p["route"]
@@ -287,8 +299,10 @@ def to_coq(case, outcome):
     if "harness_exc" in outcome:
         raise RuntimeError(outcome["harness_exc"])
     obs = []
-    n = len(case["objs"])
-    for i, e in enumerate(outcome["build"]):
+    n = len([p for p in case["objs"] if p["k"] != "O"])
+    if any(p["k"] == "O" for p in case["objs"][:n]):
+        raise RuntimeError("foreign selectables must come last in a case")
+    for i, e in enumerate(outcome["build"][:n]):
         obs.append("OBuild %s %s" % (N(i), OS(e)))
     for i in range(n):
         for j in range(n):
@@ -314,8 +328,10 @@ def to_coq(case, outcome):
                 obs.append("OHashEq %s %s %s" % (N(i), N(j), B(outcome["heq"][i][j])))
     for tag, key in (("OInList", "inl"), ("OInSet", "ins"), ("ODict", "dct")):
         for i, js, r in outcome[key]:
+            if i >= n or any(j >= n for j in js):
+                continue
             obs.append("%s %s %s %s" % (tag, N(i), L([N(j) for j in js]), _rb_coq(r)))
-    return P(L([prog_coq(p) for p in case["objs"]]), L(obs))
+    return P(L([prog_coq(p) for p in case["objs"][:n]]), L(obs))
 
 
 # =================================================================================================
@@ -474,6 +490,8 @@ def spec_of(p):
                 "dbs": [d for _, d in ch]}
     if p["k"] == "A":
         return {"fam": "A", "kind": "AliasedQuery", "name": p["name"], "body": p["body"]}
+    if p["k"] == "O":
+        return {"fam": "O", "kind": "SetOperation" if p["idx"] in (2, 3) else "QueryBuilder", "idx": p["idx"]}
     r = p["route"]
     dbs = None
     if r[0] == "none":
@@ -499,7 +517,7 @@ def spec_of(p):
             "dbs": dbs}
 
 
-IDENTITY_ATTRS = {"T": ["name", "schema", "alias", "for_", "for_portion"], "S": ["schema"], "A": ["name"]}
+IDENTITY_ATTRS = {"T": ["name", "schema", "alias", "for_", "for_portion"], "S": ["schema"], "A": ["name"], "O": ["idx"]}
 
 
 def diff_attrs(sa, sb):
@@ -523,7 +541,12 @@ def oracle(case, outcome):
     def desc(i):
         return json.dumps(case["objs"][i], sort_keys=True)
 
+    def foreign(i):
+        return specs[i]["fam"] == "O"
+
     for i in ok:
+        if foreign(i):
+            continue        # sub-queries / set operations are not subjects of the property: only pairs with a subject count
         if hashable[i] is not True:
             add(i, "-", "hashable", "hash(%s) raises %s" % (desc(i), "TypeError" if hashable[i] is False else hashable[i]))
         elif outcome["hash_stable"][i] is not True:
@@ -538,7 +561,23 @@ def oracle(case, outcome):
             add(i, "-", "equal-implies-equal-hash", "%s and the same expression evaluated again without the intermediate observations: equal objects, different hashes" % desc(i))
     for i in ok:
         for j in ok:
+            if foreign(i) and foreign(j):
+                continue
             e, d = eq[i][j], ne[i][j]
+            if foreign(i) or foreign(j):
+                # a subject against a sub-query / set operation that shares the FROM and JOIN lists with it:
+                # comparisons must be booleans, != the negation, both orders the same; never equal
+                su, fo = (j, i) if foreign(i) else (i, j)
+                fk = specs[fo]["kind"]
+                if not isinstance(e, bool) or not isinstance(d, bool):
+                    add(su, fk, "raises", "%s ==/!= %s gives %r / %r" % (desc(i), desc(j), e, d))
+                elif d != (not e):
+                    add(su, fk, "ne-is-not-eq", "%s vs %s: == is %r but != is %r" % (desc(i), desc(j), e, d))
+                elif isinstance(eq[j][i], bool) and e != eq[j][i]:
+                    add(su, fk, "symmetric", "%s == %s is %r, the converse %r" % (desc(i), desc(j), e, eq[j][i]))
+                elif e is True:
+                    add(su, fk, "distinguishes", "%s == %s: a %s equals a %s" % (desc(i), desc(j), specs[su]["kind"], fk))
+                continue
             if not isinstance(e, bool) or not isinstance(d, bool):
                 add(i, "-", "raises", "%s ==/!= %s gives %r / %r" % (desc(i), desc(j), e, d))
                 continue
@@ -561,9 +600,13 @@ def oracle(case, outcome):
     for i in ok:
         for j in ok:
             for k in ok:
+                if foreign(i) or foreign(j) or foreign(k):
+                    continue
                 if len({i, j, k}) == 3 and eq[i][j] is True and eq[j][k] is True and eq[i][k] is False:
                     add(i, "-", "transitive", "%s == %s == %s but the first != the last" % (desc(i), desc(j), desc(k)))
     for (i, js, rl), (_, _, rs), (_, _, rd) in zip(outcome["inl"], outcome["ins"], outcome["dct"]):
+        if foreign(i):
+            continue        # membership of a subject in lists / sets that may hold sub-queries and set operations
         if any(hashable[x] is not True for x in [i] + js):
             continue        # reported once as "hashable"
         if rl == rs == rd and isinstance(rl, bool):
@@ -571,6 +614,9 @@ def oracle(case, outcome):
         # which attribute separates x from the element the list found
         attr = "-"
         for j in js:
+            if foreign(j) and eq[j][i] is not False:
+                attr = specs[j]["kind"]
+                break
             if eq[j][i] is True and heq[i][j] is not True:
                 da = diff_attrs(specs[i], specs[j])
                 attr = (da[0] if da else "-") if da is not None else "class"
@@ -718,6 +764,8 @@ def realize(rng, sp, bad=None):
         return {"k": "A", "name": sp["name"], "body": sp["body"]}
     if sp["fam"] == "S":
         return {"k": "S", "prog": _sprog(rng, sp["chain"])}
+    if sp["fam"] == "O":
+        return {"k": "O", "idx": sp["idx"]}
     ch = sp["chain"]
     alias_ctor = sp["alias"] is not None and rng.random() < 0.5
     if bad in ("empty_tuple", "empty_list"):
@@ -789,6 +837,9 @@ def gen_case(rng):
         if sp["fam"] == "T" and rng.random() < 0.04:
             bad = rng.choice(["empty_tuple", "empty_list", "double", "double"])
         objs.append(realize(rng, sp, bad))
+    objs.sort(key=lambda p: p["k"] == "O")
+    if rng.random() < 0.15:
+        objs.append({"k": "O", "idx": rng.randrange(N_OTHER)})      # a sub-query / set operation in the same lists
     return {"objs": objs}
 
 
@@ -844,6 +895,12 @@ def _builtin_corpus():
         {"objs": [_t("t", ["attr", ["obs", ["attr", ["obs", ["new", True, "d"]], "s"]]], ops=[["obs"], ["portion", 0]]),
                   _t("t", ["tuple", ["d", "s"]], ops=[["portion", 0]]),
                   {"k": "S", "prog": ["obs", ["sub", False, "s", ["obs", ["new", False, "d"]]]]}]},
+        # subjects next to sub-queries / set operations (187adc3: `table in [set_operation]` was truthy for every table)
+        {"objs": [_t("t"), {"k": "A", "name": "t", "body": None}, {"k": "S", "prog": ["new", False, "t"]}, {"k": "O", "idx": 3}]},
+        {"objs": [_t("t"), _t("u", alias="t"), {"k": "O", "idx": 2}]},
+        {"objs": [_t("t"), _t("a"), {"k": "O", "idx": 1}]},
+        {"objs": [_t("u"), {"k": "A", "name": "u", "body": 0}, {"k": "O", "idx": 4}]},
+        {"objs": [_t("a"), {"k": "O", "idx": 0}]},
         # different identities, same rendered text (legitimate hash collisions, must stay unequal)
         {"objs": [_t("t", ["str", "a.b"]), _t("t", ["tuple", ["a", "b"]]), _t("b.t", ["str", "a"])]},
         {"objs": [_t("t", ["tuple", ["a", "b"]]), _t("t", ["str", 'a"."b']), _t('b"."t', ["str", "a"])]},
@@ -878,6 +935,8 @@ def histogram(cases):
         inc("objects=%d" % len(c["objs"]))
         for p in c["objs"]:
             inc("kind=" + p["k"])
+            if p["k"] == "O":
+                continue
             if p["k"] == "T":
                 inc("route=" + p["route"][0])
                 for op in p["ops"]:
@@ -908,6 +967,10 @@ def targeted_search(rng, broken, mism_cases):
             a = gen_spec(rng, fam)
             out.append({"objs": [realize(rng, a), realize(rng, a), realize(rng, mutate(rng, a))]})
     # the same chain with Schema / Database classes at every level, as schemas and as the schema of a table
+    for idx in range(N_OTHER):
+        for fam in ("T", "S", "A"):
+            a = gen_spec(rng, fam)
+            out.append({"objs": [realize(rng, a), realize(rng, mutate(rng, a)), {"k": "O", "idx": idx}]})
     for names in (["d"], ["d", "s"], ["d", "s", "r"]):
         for flags in range(2 ** len(names)):
             ch = [[n, bool(flags >> k & 1)] for k, n in enumerate(names)]
